@@ -267,6 +267,15 @@ def scenario(case):
             other = h.Module(name="ListMate")
             other.add(h.Signal(name="s"))
             src = [other, top]
+        elif case["as_list"] == 3:
+            # ... or beside a top that was NOT elaborated before and holds the first request as an array of two
+            mate = h.Module(name="FreshListMate")
+            call0 = make_call(case["reqs"][0])
+            arr = 2 * call0()
+            for pn in call0.ports:
+                arr.connect(pn, mate.add(h.Signal(name="n_" + pn)))
+            mate.add(arr, name="arr")
+            src = [top, mate]
         else:
             src = [top]
 
@@ -361,6 +370,13 @@ def scenario(case):
         return out
     if case["how"] == "default" and len(case["pdks"]) > 1 and not explicit_default:
         out["fails"].append(("default_ambiguous_accepted", "several PDKs registered, none default, yet hdl21.pdk.compile() compiled"))
+    if case.get("as_list") == 3 and mapped[0] and exp[0][1]:
+        import hdl21.primitives as hp
+        left = [i.name for i in list(mate.instances.values()) + list(mate.instarrays.values())
+                if isinstance(getattr(i, "of", None), h.PrimitiveCall) and i.of.prim is getattr(hp, case["reqs"][0]["prim"])]
+        if left or len(mate.instances) != 2:
+            out["fails"].append(("not_replaced_in_fresh_list_mate:%s:%s" % (target, case["reqs"][0]["prim"]),
+                                 "compile([elaborated top, fresh top]) left %s of the fresh top un-mapped (its instances: %s)" % (left, sorted(mate.instances))))
     after = snapshot(top)
     # hierarchy, names, conns
     if set(after) != set(before):
@@ -806,7 +822,7 @@ def shard(idx, n, tier):
         levels = [draw(st.integers(0, depth - 1)) for _ in reqs]
         how = draw(st.sampled_from(["direct", "direct", "name", "module", "default"]))
         return {"pdks": [target] + others, "target": target, "how": how, "twice": draw(st.booleans()), "reqs": reqs, "pre_walk": draw(st.booleans()),
-                "as_list": draw(st.sampled_from([0, 0, 1, 2])),
+                "as_list": draw(st.sampled_from([0, 0, 1, 2, 3])),
                 "set_default": draw(st.sampled_from([None, "name", "module"])), "failed_other_first": draw(st.booleans()),
                 "shape": {"depth": depth, "levels": levels, "tie": draw(st.booleans())}}
 
